@@ -396,8 +396,63 @@ fn decode_seq_kt(kt: KT, buf: &[u8], n: usize) -> Result<Vec<(Vec<u8>, usize)>, 
     }
 }
 
+/// Lists of records ENCODED by the library's own `Encodable` (alloy-rlp frames `Vec<T>` from `T::length()`):
+/// the bytes are the RefRLP list of the two encodings and decode back to the same records.
+fn c13_encoded_lists<KK: KeyKind>(ctx: &mut Ctx, scheme: Scheme) {
+    let key = KK::make(scheme, &secret_from(scheme, OWN));
+    let plans: Vec<Vec<BEntry>> = vec![
+        vec![],
+        vec![BEntry::Add(b"v".to_vec(), Val::U8(1))],
+        vec![BEntry::Add(vec![0x05], Val::B(vec![1, 2]))],
+        vec![BEntry::Add(vec![b'k'; 56], Val::B(vec![3]))],
+        vec![BEntry::Add(vec![0x90, 0x91], Val::B(vec![0x55; 57])), BEntry::Udp4(9)],
+        vec![BEntry::Ip4([1, 2, 3, 4]), BEntry::Tcp4(80), BEntry::Add(b"a".to_vec(), Val::L(vec![vec![1], vec![]]))],
+    ];
+    let mut recs: Vec<Enr<KK::K>> = Vec::new();
+    for p in &plans {
+        if let Ok(Ok(e)) = guard(|| apply_build::<KK::K>(p, &key)) {
+            recs.push(e);
+        }
+    }
+    for i in 0..recs.len() {
+        for j in 0..recs.len() {
+            let pair = vec![recs[i].clone(), recs[j].clone()];
+            let r = guard(|| {
+                let listed = alloy_rlp::encode(&pair);
+                let mut b: &[u8] = &listed;
+                let back = Vec::<Enr<KK::K>>::decode(&mut b).map(|v| (v.len(), v.iter().zip(&pair).all(|(x, y)| x == y), b.len()));
+                (listed, back.map_err(|e| format!("{e:?}")))
+            });
+            ctx.count("evaluations");
+            ctx.count("stream.encoded-lists");
+            let replay = || json!({"kind": "note", "what": "encoded-list", "kt": KK::name(), "plans": [i, j]});
+            match r {
+                Err(p) => ctx.violate("C03", "panic", &format!("encode-list/{}", panic_sig(&p)), || p.clone(), replay),
+                Ok((listed, back)) => {
+                    let want = crate::props::rlp_wrap_list(&[alloy_rlp::encode(&pair[0]), alloy_rlp::encode(&pair[1])]);
+                    if listed != want {
+                        ctx.violate("C13", "list-encoding-of-records-malformed", &KK::name(), || format!("encode(vec![r{i}, r{j}]) differs from the list of the two encodings"), replay);
+                    }
+                    match back {
+                        Ok((2, true, 0)) => {}
+                        other => ctx.violate("C13", "list-yields-other-records", &format!("encoded-by-library/{}", KK::name()), || format!("decode(encode(vec![r{i}, r{j}])) = {other:?}"), replay),
+                    }
+                }
+            }
+        }
+    }
+}
+
 pub fn c13(ctx: &mut Ctx) {
     let q = ctx.quick();
+    if !cfg!(miri) && ctx.mine(3) {
+        c13_encoded_lists::<K256K>(ctx, Scheme::Secp);
+        #[cfg(feature = "libsecp")]
+        c13_encoded_lists::<LibsecpK>(ctx, Scheme::Secp);
+        c13_encoded_lists::<EdK>(ctx, Scheme::Ed);
+        c13_encoded_lists::<CombK>(ctx, Scheme::Ed);
+        c13_encoded_lists::<ToyK>(ctx, Scheme::Toy);
+    }
     let pools = crate::props::Pools::new();
     let pool = |s: Scheme| pools.get(s);
     let nb = 12 + ctx.vol(if q { 36 } else { 1500 });
